@@ -320,6 +320,13 @@ def gen_history(rng, n: int, *, weights: dict | None = None) -> list:
             continue
         sh.apply(c)
         out.append(c)
+        if c[0] == 'expunge' and rng.random() < 0.5 and len(out) + 3 <= n:
+            # records dropped by CHECK, then new messages: uids must not come back
+            f = list(sh.sel[0])
+            for extra in (('check',), ('append', f, [('', sh.new_cid())]),
+                          ('append', f, [('S', sh.new_cid())])):
+                sh.apply(extra)
+                out.append(extra)
     return out
 
 
@@ -425,6 +432,18 @@ def durability_failures(res: dict, cr: dict) -> list[tuple[str, str, dict]]:
                 fails.append(('served_after_restart',
                               f'{f} uid {uid} lost by an interrupted {inflight[0]} that only '
                               f'changes flags', {'kind': 'lost_message'}))
+            if not cands:
+                # gone from (f, uid): it must not still be in f under another uid
+                # (unless the interrupted command itself adds such a copy to f)
+                others = [m['uid'] for g in names(f) if g in rec['folders']
+                          for m in rec['folders'][g]['msgs'] if m['body'] == body]
+                adds = [k_ for k_, v in nm.items() if k_[0] == f and v[1] == body and k_ not in pm]
+                if others and not adds and f in rec['folders'] \
+                        and rec['folders'][f]['validity'] == vals_prev:
+                    fails.append(('served_after_restart',
+                                  f'{f} uid {uid}, acknowledged, is served as uid {others} after a '
+                                  f'kill at operation {cr["k"]} (UIDVALIDITY unchanged)',
+                                  {'kind': 'uid_changed'}))
     # -- nothing unknown appears; uids are never handed to another message
     new_bodies = {v[1] for k_, v in nm.items() if k_ not in pm or pm[k_][1] != v[1]}
     if a < len(cmds):
